@@ -154,13 +154,27 @@ def execute_ll(case, t):
 @st.composite
 def thread_case(draw):
     c = draw(C05.kernel_case())
-    c["T"] = draw(st.integers(1, 200))
+    c["T"] = draw(st.one_of(st.integers(1, 200), st.integers(1, 200), st.sampled_from([1500, 4000, 6061])))
+    if c["T"] > 200:
+        c["nw"] = min(c["nw"], 6)
+        c["W"] = 1
+        c["logdet_targets"] = [min(max(x, -50.0), 50.0) for x in c["logdet_targets"]]
+    c["hold"] = draw(st.sampled_from([0, 0, 3, 40]))       # sample-and-hold data: runs of identical consecutive windows
+    c["points_on_means"] = False
+    c["rescore_after_update"] = False
     return c
 
 
 def execute_threads(case, t):
     w = workers(thread_env=True)["jit"]
     thetas, means, pts = C05.build_kernel_inputs(case)
+    if case.get("hold"):
+        rng = np.random.default_rng(case["seed"] + 5)
+        i = 0
+        while i < len(pts):
+            run = int(rng.integers(1, case["hold"] + 1))
+            pts[i:i + run] = pts[i]
+            i += run
     counts = [1, 2, 4, 8, 16]
     try:
         out = w.call("ll_table", thetas=thetas, means=means, points=pts, W=case["W"], threads=counts)
@@ -174,6 +188,14 @@ def execute_threads(case, t):
             raise Violation(f"likelihood table with {n} threads differs from the single-thread table in {bad} entries "
                             f"(T={pts.shape[0]}, NW={case['nw']}, layer {out['layer']})")
     t.cls(f"layer_{out['layer']}")
+    if case.get("hold"):
+        t.cls("repeated_consecutive_windows")
+    # and against the closed form (a value that is wrong for every thread count would otherwise pass)
+    ref, kappas, _ = gaussian_ref.log_density_table(np.asarray(pts, dtype=np.float64), means, thetas)
+    for k in range(ref.shape[1]):
+        tol = gaussian_ref.tolerance(ref[:, k], case["nw"], kappas[k])
+        if np.any(np.abs(base[:, k] - ref[:, k]) > tol):
+            raise Violation(f"likelihood table under JIT differs from the reference density (cluster {k}, T={pts.shape[0]}, NW={case['nw']})")
     if pts.shape[0] >= 16:
         t.mark_nontrivial({"T": int(pts.shape[0]), "NW": case["nw"], "threads": counts, "layer": out["layer"]})
 
@@ -216,6 +238,13 @@ def execute_e2e(case, t):
         t.mark_nontrivial({"rounds": ref["rounds_n"], "reason": ref["reason"], "cost": ref["cost"]})
 
 
+def _pinned_e2e_long():
+    base = {"front": "single", "N": 1, "W": 1, "K": 5, "lengths": [14000], "regimes": 5, "mean_spread": 4.0, "data_seed": 21, "np_seed": 21,
+            "py_seed": 21, "beta": 1.0, "beta_form": "scalar", "lam": 0.11, "lam_form": "scalar", "limit": 2, "m": 5, "biased": False,
+            "eps": 0, "num_processors": 1, "boundary_regime_flip": False, "short_segments": True, "outliers": 0}
+    return [base, dict(base, K=3, lengths=[23000], regimes=3, data_seed=22)]
+
+
 def _e2e_strategy():
     return gen.e2e_config(front=("single", "single", "joint"), betas=(0.0, 0.5, 2.0, 10.0, 50.0), limits=(1, 2, 3, 5))
 
@@ -227,6 +256,6 @@ SUBCHECKS = [
              budget={"quick": 240, "thorough": 8000}, shards={"quick": 2, "thorough": 4}, modes=["jit"]),
     SubCheck(name="likelihood_table_across_thread_counts", strategy=thread_case, execute=execute_threads,
              budget={"quick": 200, "thorough": 8000}, shards={"quick": 1, "thorough": 4}, modes=["jit"]),
-    SubCheck(name="complete_runs_across_modes", strategy=_e2e_strategy, execute=execute_e2e,
+    SubCheck(name="complete_runs_across_modes", strategy=_e2e_strategy, execute=execute_e2e, pinned=_pinned_e2e_long,
              budget={"quick": 64, "thorough": 2000}, shards={"quick": 4, "thorough": 4}, modes=["jit"]),
 ]
